@@ -320,7 +320,7 @@ impl<T: Send> SchedulerFuture<T> {
         debug_assert!(self.queue.core.lock().expect("JobQueue core lock").state.is_running());
 
         // Set the queue as active
-        let _active     = ActiveQueue { queue: &*self.queue };
+        let _active     = ActiveQueue::new(&*self.queue);
         let mut result;
 
         self.draining = true;
